@@ -131,6 +131,8 @@ fn run_snapshot_inner(args: &SnapshotArgs, cli: &Cli) -> crate::Result<i32> {
     let history_path = args.history_file.as_ref().unwrap_or(&default_path);
     let mut history = TrendHistory::load_or_default(history_path);
 
+    #[cfg(feature = "verif-hooks")]
+    crate::verif_hooks::point("snap:after_load");
     // Get trend config
     let trend_config = config.trend.clone();
 
@@ -158,6 +160,8 @@ fn run_snapshot_inner(args: &SnapshotArgs, cli: &Cli) -> crate::Result<i32> {
     // Add entry with git context
     history.add_with_context(&project_stats, git_context.as_ref());
 
+    #[cfg(feature = "verif-hooks")]
+    crate::verif_hooks::point("snap:before_save");
     // Save with retention policy applied
     history.save_with_retention(history_path, &trend_config)?;
 
